@@ -36,8 +36,11 @@ func VerifC08_Copy() {
 		dimg := vrtCmdSecondImage(h, "d", now, aid == ArchiveIDAll && na > 1)
 		dp = vrt.TempFile("dst/a.wsp", dimg)
 	}
-	from := vrtCmdInstant(h, "from")
-	vrt.Assume(from <= now)
+	var from wt.Timestamp // all archives of a multi-archive file in the quick tier: the default window
+	if !(aid == ArchiveIDAll && na > 1 && vrt.Tier() == 0) {
+		from = vrtCmdInstant(h, "from")
+		vrt.Assume(from <= now)
+	}
 	copyNaN := vrt.Choose("copyNaN", 2) == 1
 	c := &CopyCommand{SrcBase: filepath.Dir(sp), DestBase: filepath.Dir(dp), SrcRelPath: "a.wsp", ArchiveID: aid, From: from,
 		CopyNaN: copyNaN, AggregationMethod: wt.Sum, XFilesFactor: 0.5, ArchiveInfoList: h.ArchiveInfoList()}
@@ -72,13 +75,9 @@ func VerifC08_Copy() {
 		for k := range sv {
 			if k < len(dv) {
 				if !sv[k].IsNaN() {
-					vrt.Known("C08-propagation-overwrites-coarser", aid == ArchiveIDAll && i > 0)
 					vrt.Assert(vrtSameValue(dv[k], sv[k]), "C08 destination holds the source's value wherever the source has one")
-					vrt.KnownOff("C08-propagation-overwrites-coarser")
 				} else if copyNaN {
-					vrt.Known("C08-propagation-overwrites-coarser", aid == ArchiveIDAll && i > 0)
 					vrt.Assert(dv[k].IsNaN(), "C08 NaN copied where the source has none (copy-nan)")
-					vrt.KnownOff("C08-propagation-overwrites-coarser")
 				}
 			}
 		}
